@@ -223,3 +223,69 @@ HELPERS = [M + IQ + ".unmarshall_designator", M + IQ + ".unmarshall_ata_informat
 TRANSPORT_ID = {0x00: ("n_port_name", 8, 15), 0x03: ("eui64_name", 8, 15), 0x04: ("initiator_port_identifier", 8, 23),
                 0x06: ("sas_address", 4, 11), 0x0A: ("routing_id", 4, 11)}
 TRANSPORT_ID_ISCSI = {"protocol": 0x05, "length_field": (2, 2), "name_from": 4}
+
+# ---- the shortest responses the standards allow -----------------------------------------------------------
+# (decoder class, keyword arguments, length in bytes, {byte: value} for the bytes that select the format; every other
+# byte is arbitrary).  A device that returns exactly this much is conformant: the decoder must not fail on it.
+MINIMAL = []
+
+
+def _min(cls, n, fixed=None, kwargs=None, note="", count=None):
+    """count: (key, n) -- the decoded dictionary must report n entries under key"""
+    MINIMAL.append({"cls": M + cls, "kwargs": dict(kwargs or {}), "length": n, "fixed": dict(fixed or {}), "note": note, "count": count})
+
+
+def _mg(*ds):
+    out = {}
+    for d in ds:
+        out.update(d)
+    return out
+
+
+def _be(first, n, value):
+    return {first + i: (value >> (8 * (n - 1 - i))) & 0xFF for i in range(n)}
+
+
+_min(IQ, 36, kwargs={"evpd": 0}, note="standard INQUIRY data: at least 36 bytes (SPC-4 6.4.2)")
+_min(IQ, 96, kwargs={"evpd": 0}, note="standard INQUIRY data, 96 bytes")
+_min(IQ, 6, _mg({1: 0x00}, _be(2, 2, 2)), {"evpd": 1}, "Supported VPD Pages with two entries")
+_min(IQ, 4, _mg({1: 0x00}, _be(2, 2, 0)), {"evpd": 1}, "Supported VPD Pages, empty list")
+_min(IQ, 8, _mg({1: 0x80}, _be(2, 2, 4)), {"evpd": 1}, "Unit Serial Number, 4 characters")
+_min(IQ, 4, _mg({1: 0x83}, _be(2, 2, 0)), {"evpd": 1}, "Device Identification, no designators")
+_min(IQ, 16, _mg({1: 0x83, 5: 0x03, 7: 8, 8: 0x50}, _be(2, 2, 12)), {"evpd": 1}, "Device Identification, one NAA-5 designator")
+_min(IQ, 16, _mg({1: 0xB0}, _be(2, 2, 0x0C)), {"evpd": 1}, "Block Limits, SBC-2 length (page length 0Ch)")
+_min(IQ, 64, _mg({1: 0xB0}, _be(2, 2, 0x3C)), {"evpd": 1}, "Block Limits, SBC-3 length")
+_min(IQ, 64, _mg({1: 0xB1}, _be(2, 2, 0x3C)), {"evpd": 1}, "Block Device Characteristics")
+_min(IQ, 8, _mg({1: 0xB2}, _be(2, 2, 4)), {"evpd": 1}, "Logical Block Provisioning without descriptor")
+_min(IQ, 16, _mg({1: 0xB3}, _be(2, 2, 0x0C)), {"evpd": 1}, "Referrals")
+_min(IQ, 64, _mg({1: 0x86}, _be(2, 2, 0x3C)), {"evpd": 1}, "Extended INQUIRY Data")
+_min(IQ, 572, _mg({1: 0x89}, _be(2, 2, 0x238)), {"evpd": 1}, "ATA Information")
+_min("scsi_cdb_readcapacity10:ReadCapacity10", 8, note="READ CAPACITY(10) data")
+_min("scsi_cdb_readcapacity16:ReadCapacity16", 32, note="READ CAPACITY(16) data")
+_min(GL, 24, _be(0, 4, 20), note="GET LBA STATUS with one descriptor")
+_min(RL, 16, _be(0, 4, 8), note="REPORT LUNS with one LUN")
+_min(RL, 8, _be(0, 4, 0), note="REPORT LUNS, empty list")
+_min(RT, 16, _mg({7: 1}, _be(0, 4, 12)), note="REPORT TARGET PORT GROUPS, one group with one port")
+_min(RT, 4, _be(0, 4, 0), note="REPORT TARGET PORT GROUPS, no groups")
+_min(RE, 8, _be(5, 3, 0), note="READ ELEMENT STATUS, header only")
+_min(RE, 28, _mg({8: 2, 9: 0, 10: 0, 11: 12}, _be(5, 3, 20), _be(13, 3, 12)), note="READ ELEMENT STATUS, one storage element, 12-byte descriptor")
+_min(PI + "PersistentReserveInReadKeys", 8, _be(4, 4, 0), note="READ KEYS, no keys")
+_min(PI + "PersistentReserveInReadKeys", 16, _be(4, 4, 8), note="READ KEYS, one key")
+_min(PI + "PersistentReserveInReadReservation", 8, _be(4, 4, 0), note="READ RESERVATION, none held")
+_min(PI + "PersistentReserveInReadReservation", 24, _be(4, 4, 16), note="READ RESERVATION, one held")
+_min(PI + "PersistentReserveInReportCapabilities", 8, _be(0, 2, 8), note="REPORT CAPABILITIES")
+_min(FS, 8, _be(4, 4, 0), note="READ FULL STATUS, no descriptors")
+_min(FS, 56, _mg({32: 0x00}, _be(4, 4, 48), _be(28, 4, 24)), note="READ FULL STATUS, one descriptor with an FCP TransportID")
+_min(RD, 34, _mg({2: 0x00}, _be(0, 2, 32)), note="READ DISC INFORMATION, standard disc information without OPC entries")
+_min("scsi_cdb_modesense6:ModeSense6", 4, {0: 3, 3: 0}, note="MODE SENSE(6), header only")
+_min("scsi_cdb_modesense6:ModeSense6", 16, {0: 15, 3: 0, 4: 0x0A, 5: 0x0A}, note="MODE SENSE(6), control mode page")
+_min("scsi_cdb_modesense10:ModeSense10", 8, _mg({6: 0, 7: 0}, _be(0, 2, 6)), note="MODE SENSE(10), header only")
+_min("scsi_cdb_modesense10:ModeSense10", 20, _mg({6: 0, 7: 0, 8: 0x0A, 9: 0x0A}, _be(0, 2, 18)), note="MODE SENSE(10), control mode page")
+# list-valued results: everything inside the reported length is returned
+_min("scsi_cdb_modesense6:ModeSense6", 32, {0: 31, 3: 0, 4: 0x0A, 5: 0x0A, 16: 0x02, 17: 0x0E},
+     note="MODE SENSE(6), control and disconnect-reconnect mode pages", count=("mode_pages", 2))
+_min("scsi_cdb_modesense10:ModeSense10", 36, _mg({6: 0, 7: 0, 8: 0x0A, 9: 0x0A, 20: 0x02, 21: 0x0E}, _be(0, 2, 34)),
+     note="MODE SENSE(10), control and disconnect-reconnect mode pages", count=("mode_pages", 2))
+_min(RL, 24, _be(0, 4, 16), note="REPORT LUNS with two LUNs", count=("luns", 2))
+_min(GL, 40, _be(0, 4, 36), note="GET LBA STATUS with two descriptors", count=("lbas", 2))
+_min(PI + "PersistentReserveInReadKeys", 24, _be(4, 4, 16), note="READ KEYS, two keys", count=("reservation_keys", 2))
